@@ -178,12 +178,12 @@ def specs(draw, kind, rot_classes=None, size_lo=1e-2, size_hi=1e2,
         # optionally one strictly interior vertex that no triangle references
         # (point clouds passed through make_convex_mesh keep such vertices),
         # close to a face and possibly at index 0
-        where = draw(st.sampled_from(["none", "first", "last"]))
+        where = draw(st.sampled_from(["none", "first", "first", "last"]))
         if where != "none":
             Va = np.array(V, dtype=float)
             tri = mesh_triangles(Va)
             t = tri[draw(st.integers(0, len(tri) - 1))]
-            inner = 0.9 * Va[t].mean(axis=0) + 0.1 * Va.mean(axis=0)
+            inner = 0.97 * Va[t].mean(axis=0) + 0.03 * Va.mean(axis=0)
             V = ([inner.tolist()] + V) if where == "first" else (V + [inner.tolist()])
             vc["cls"] += "+interior-" + where
         spec["vertices"] = V
